@@ -328,10 +328,29 @@ Fixpoint attr_loop (g : grammar) (p : pool) (ct : ctx_table) (m : mask) (nest : 
 (* names of the attributes stored in [slot], oldest first *)
 Definition slot_sources (ct : ctx_table) (st : lstate) (slot : str) : list (str * list row) :=
   map (fun p => (fst (snd p), rows_of ct (fst (snd p)) (snd (snd p)))) (filter (fun p => str_eqb (fst p) slot) (rev (l_slots st))).
-Definition deferred_events (ct : ctx_table) (st : lstate) : list ev :=
-  flat_map (fun slot => match slot_sources ct st slot with [] => [] | srcs => [EDeferred slot srcs] end) (t_deferred ct).
-Definition loop_events (ct : ctx_table) (st : lstate) : list ev :=
-  rev (l_events st) ++ deferred_events ct st ++ (if t_flags_event ct then [EFlags (l_dep st) (l_syn st)] else []).
+(* `if let Some(table) = slot { if !table.is_empty() || (interests.f1 && interests.f2) { visitor.visit_…(table)?; } }`:
+   a filled slot is delivered; when the slot carries the guard ([t_whole]), a table without rows only to a visitor
+   with all the interests the guard names *)
+Definition has_rows (srcs : list (str * list row)) : bool :=
+  existsb (fun x => match snd x with [] => false | _ => true end) srcs.
+Fixpoint whole_of (slot : str) (l : list (str * list str)) : option (list str) :=
+  match l with
+  | [] => None
+  | (s, w) :: l' => if str_eqb slot s then Some w else whole_of slot l'
+  end.
+Definition table_delivered (ct : ctx_table) (m : mask) (slot : str) (srcs : list (str * list row)) : bool :=
+  match srcs with
+  | [] => false
+  | _ => match whole_of slot (t_whole ct) with
+         | None => true
+         | Some w => has_rows srcs || forallb (interested m) w
+         end
+  end.
+Definition deferred_events (ct : ctx_table) (m : mask) (st : lstate) : list ev :=
+  flat_map (fun slot => let srcs := slot_sources ct st slot in
+                        if table_delivered ct m slot srcs then [EDeferred slot srcs] else []) (t_deferred ct).
+Definition loop_events (ct : ctx_table) (m : mask) (st : lstate) : list ev :=
+  rev (l_events st) ++ deferred_events ct m st ++ (if t_flags_event ct then [EFlags (l_dep st) (l_syn st)] else []).
 
 (* count; loop *)
 Definition read_attributes (g : grammar) (p : pool) (ct : ctx_table) (m : mask) (nest : nested)
@@ -359,7 +378,7 @@ Definition read_code (g : grammar) (p : pool) (T : reader_tables) (m : mask) (at
   match rd16 s4 with Err => Err | Ok (nexc, s5) =>
   match takeN s5 (8 * nexc) with Err => Err | Ok (excb, s6) =>       (* read_vec(read_u16_as_usize, 4 × read_u16) *)
   match read_attributes g p (rt_code T) m no_nested s6 with Err => Err | Ok (st, s7) =>
-    Ok (ECode attr max_stack max_locals (frame_sources st) (exc_rows nexc excb) (loop_events (rt_code T) st), s7)
+    Ok (ECode attr max_stack max_locals (frame_sources st) (exc_rows nexc excb) (loop_events (rt_code T) m st), s7)
   end end end end end end end.
 
 (* read_record_component *)
@@ -369,7 +388,7 @@ Definition read_rc (g : grammar) (p : pool) (T : reader_tables) (v : visitor) (a
   match v_rc v k with
   | Some m =>
       match read_attributes g p (rt_rc T) m no_nested s2 with Err => Err | Ok (st, s3) =>
-        Ok (ERc attr k name desc (Some (loop_events (rt_rc T) st)), s3) end
+        Ok (ERc attr k name desc (Some (loop_events (rt_rc T) m st)), s3) end
   | None =>
       if rt_break_rc T then match skip_attributes s2 with Err => Err | Ok s3 => Ok (ERc attr k name desc None, s3) end
       else Ok (ERc attr k name desc None, s2)
@@ -383,7 +402,7 @@ Definition read_field (g : grammar) (p : pool) (T : reader_tables) (v : visitor)
   match v_field v k with
   | Some m =>
       match read_attributes g p (rt_field T) m no_nested s3 with Err => Err | Ok (st, s4) =>
-        Ok (EField k access name desc (Some (loop_events (rt_field T) st)), s4) end
+        Ok (EField k access name desc (Some (loop_events (rt_field T) m st)), s4) end
   | None =>
       if rt_break_field T then match skip_attributes s3 with Err => Err | Ok s4 => Ok (EField k access name desc None, s4) end
       else Ok (EField k access name desc None, s3)
@@ -402,7 +421,7 @@ Definition read_method (g : grammar) (p : pool) (T : reader_tables) (v : visitor
   match v_method v k with
   | Some m =>
       match read_attributes g p (rt_method T) m (method_nested g p T v k) s3 with Err => Err | Ok (st, s4) =>
-        Ok (EMethod k access name desc (Some (loop_events (rt_method T) st)), s4) end
+        Ok (EMethod k access name desc (Some (loop_events (rt_method T) m st)), s4) end
   | None =>
       if rt_break_method T then match skip_attributes s3 with Err => Err | Ok s4 => Ok (EMethod k access name desc None, s4) end
       else Ok (EMethod k access name desc None, s3)
@@ -447,7 +466,7 @@ Definition read_class (g : grammar) (T : reader_tables) (v : visitor) (s : bytes
     (* with_pos(fields_start, …): second pass from the marker; afterwards back to s_end *)
     match read_members (member_reader T (rt_honours_fields T) (interested (v_class v) FIELDS) (read_field g (h_pool h) T v)) s_members with Err => Err | Ok (fs, s2) =>
     match read_members (member_reader T (rt_honours_methods T) (interested (v_class v) METHODS) (read_method g (h_pool h) T v)) s2 with Err => Err | Ok (ms, _) =>
-      Ok (Some (loop_events (rt_class T) st ++ fs ++ ms), s_end)
+      Ok (Some (loop_events (rt_class T) (v_class v) st ++ fs ++ ms), s_end)
     end end end
   else
     if rt_break_class T then match skip_attributes s_attrs with Err => Err | Ok s_end => Ok (None, s_end) end
